@@ -1,0 +1,92 @@
+// Copyright 2017-2021 Lei Ni (nilei81@gmail.com) and other contributors.
+//
+// Licensed under the Apache License, Version 2.0 (the "License");
+// you may not use this file except in compliance with the License.
+// You may obtain a copy of the License at
+//
+//     http://www.apache.org/licenses/LICENSE-2.0
+//
+// Unless required by applicable law or agreed to in writing, software
+// distributed under the License is distributed on an "AS IS" BASIS,
+// WITHOUT WARRANTIES OR CONDITIONS OF ANY KIND, either express or implied.
+// See the License for the specific language governing permissions and
+// limitations under the License.
+
+//go:build verif
+
+// Package verifhook provides observation points for external runtime
+// monitors. This is the enabled form, selected by the verif build tag: each
+// point calls the handler registered for it, if any, in the goroutine that
+// reached the point.
+package verifhook
+
+import (
+	"sync/atomic"
+
+	pb "github.com/lni/dragonboat/v4/raftpb"
+)
+
+// Enabled tells whether the hooks are compiled in.
+const Enabled = true
+
+// Point ids.
+const (
+	PreSave = iota
+	PostSave
+	ProposalCommittedWindow
+	ReadIndexWindow
+	NativeSMClose
+	NumPoints
+)
+
+type pointFn func(a uint64, b uint64)
+type sendFn func(m *pb.Message)
+type updatesFn func(uds []pb.Update)
+
+var (
+	points  [NumPoints]atomic.Value
+	updates [NumPoints]atomic.Value
+	send    atomic.Value
+)
+
+// SetPoint registers (or with nil removes) the handler of a point.
+func SetPoint(id int, f func(a uint64, b uint64)) {
+	points[id].Store(pointFn(f))
+}
+
+// SetSend registers the handler observing outgoing messages.
+func SetSend(f func(m *pb.Message)) {
+	send.Store(sendFn(f))
+}
+
+// SetUpdates registers the handler of an Updates point.
+func SetUpdates(id int, f func(uds []pb.Update)) {
+	updates[id].Store(updatesFn(f))
+}
+
+// Point is a named observation point.
+func Point(id int, a uint64, b uint64) {
+	if v := points[id].Load(); v != nil {
+		if f := v.(pointFn); f != nil {
+			f(a, b)
+		}
+	}
+}
+
+// Send observes a message about to be handed to the transport.
+func Send(m *pb.Message) {
+	if v := send.Load(); v != nil {
+		if f := v.(sendFn); f != nil {
+			f(m)
+		}
+	}
+}
+
+// Updates observes the updates of a step worker iteration.
+func Updates(id int, uds []pb.Update) {
+	if v := updates[id].Load(); v != nil {
+		if f := v.(updatesFn); f != nil {
+			f(uds)
+		}
+	}
+}
